@@ -13,8 +13,11 @@ What is PROVED (Coq, theories/C13, all texts / all productions / all headers):
 What is DECIDED BY EXECUTION, per generated program (partial):
   * scanner: mirror vs CTParserBuilder on generated action texts (the substituted body is read
     back from the generated file);
-  * pipeline: K grammar/lexer pairs x builder settings are generated with CTLexerBuilder +
-    CTParserBuilder, `include!`d (as lrpar_mod!/lrlex_mod! do) into ONE throw-away crate,
+  * pipeline: K grammar/lexer pairs x builder settings x ENTRY POINT are generated with CTLexerBuilder +
+    CTParserBuilder (`CTLexerBuilder::lrpar_config(..).build()`, or the deprecated
+    `CTParserBuilder::process_file` + `CTLexerBuilder::rule_ids_map(..).process_file`; all options set
+    through the builders; families incl. lexers naming tokens the grammar lacks and one grammar with a
+    programs section > 80 KB), `include!`d (as lrpar_mod!/lrlex_mod! do) into ONE throw-away crate,
     compiled with rustc, run on generated inputs, and compared with the run-time pipeline
     (from_str + set_rule_ids + RTParserBuilder) on lexemes, value/tree, errors and repair
     sets, token_epp, R_*/N_* constants; the value is also recomputed by the extracted Coq
@@ -96,8 +99,10 @@ def gen_line(d, pr):
     vis = s['vis']
     if vis == "in":
         vis = "in:" + hx("crate::%s" % pr['name'])
-    l = "gen %s %s yk=%s rec=%s ser=%s ed=%s vis=%s mody=%s modl=%s" % (
-        hx(d), pr['name'], pr['yk'], s['rec'], s['ser'], s['ed'], vis, s['mody'], s['modl'])
+    l = "gen %s %s yk=%s rec=%s ser=%s ed=%s vis=%s mody=%s modl=%s entry=%s" % (
+        hx(d), pr['name'], pr['yk'], s['rec'], s['ser'], s['ed'], vis, s['mody'], s['modl'], s.get('entry', 'build'))
+    if s.get('amp', '-') != '-':
+        l += " amp=%s" % s['amp']
     for k in c13gen.ALL_FLAGS:
         if k in pr['lex_api']:
             l += " lf:%s=%d" % (k, int(pr['lex_api'][k]))
@@ -575,26 +580,42 @@ def plan(ctx):
     pinned = {"rec": "C"}
     first += [(lambda r: c13gen.fam_insert(r, avoid=["INT", "EQ", "ID"]), "G", pinned), (c13gen.fam_avoid, "U", pinned),
               (c13gen.fam_avoid, "G", {"rec": "-"})]
+    # the ENTRY POINT is an input of the generation step: programs generated through the deprecated
+    # CTParserBuilder::process_file (+ CTLexerBuilder::process_file) with the recoverer set through the builder
+    # (families with erroneous inputs: the recoverer is visible in the errors / repair sets / value)
+    first += [(c13gen.fam_insert, "G", {"rec": "N", "entry": "pf"}), (c13gen.fam_expr, "O", {"rec": "N", "entry": "pf"}),
+              (c13gen.fam_list, "U", {"rec": "C", "entry": "pf"}), (c13gen.fam_avoid, "G", {"rec": "N", "entry": "build"})]
+    # the .l names tokens the grammar lacks (reserved words before the identifier rule): both entry points,
+    # allow_missing_tokens_in_parser set / unset
+    first += [(lambda r: c13gen.fam_keywords(r, "stmts"), "G", {"entry": "build", "amp": "1"}),
+              (lambda r: c13gen.fam_keywords(r, "calls"), "O", {"entry": "pf", "amp": "-"}),
+              (lambda r: c13gen.fam_keywords(r, "stmts"), "U", {"entry": "build", "amp": "-"})]
+    # ONE program whose grammar has a programs section of > 80 KB (big embedded constants at the parser's start-up)
+    first += [(c13gen.fam_expr, "G", {"ser": "V"}, {"big_programs": 90000})]
     first += [(c13gen.fam_expr, "G"), (c13gen.fam_insert, "U"), (c13gen.fam_long, "G"),
               (c13gen.fam_list, "O"), (c13gen.fam_list, "G"), (c13gen.fam_insert, "G"),
               (c13gen.fam_random, "G"), (c13gen.fam_expr, "U"),
               (c13gen.fam_states, "G"), (c13gen.fam_states, "O")]
-    k = ctx.n(48, 300)
+    k = ctx.n(56, 300)
     for i in range(k):
         if i < len(first):
             f, yk = first[i][0], first[i][1]
-            pr = c13gen.make_program(rng, i, family=f, yk=yk, forced=first[i][2] if len(first[i]) > 2 else None)
-            pr['pinned'] = len(first[i]) > 2
+            forced_ = first[i][2] if len(first[i]) > 2 else None
+            pr = c13gen.make_program(rng, i, family=f, yk=yk, forced=forced_)
+            pr['pinned'] = bool(forced_) and bool(pr.get('avoid_insert'))
+            pr['pinned_keys'] = set(forced_ or ())
+            if len(first[i]) > 3:
+                pr.update(first[i][3])
             progs.append(pr)
         else:
             progs.append(c13gen.make_program(rng, i))
     # settings coverage: make sure every recoverer / format / edition / visibility occurs
     forced = [("rec", ["C", "N", "-"]), ("ser", ["F", "V", "-"]), ("ed", ["2015", "2018", "2021"]),
-              ("vis", ["priv", "pub", "super", "self", "crate", "in"])]
+              ("vis", ["priv", "pub", "super", "self", "crate", "in"]), ("entry", ["build", "pf"]), ("amp", ["-", "0", "1"])]
     for key, vals in forced:
         for j, v in enumerate(vals):
             idx = (j * 5 + len(key)) % len(progs)
-            while progs[idx].get('pinned') and key == "rec":
+            while key in progs[idx].get('pinned_keys', ()):
                 idx = (idx + 1) % len(progs)
             progs[idx]['settings'][key] = v
     return progs
@@ -763,7 +784,8 @@ def pipeline_part(ctx, exe, mexe, d):
     ndiff = 0
     nprog_compared = 0
     evl, evmeta = [], []
-    stats = dict(inputs=0, with_errors=0, values_compared=0, err_values=0, nondet_skipped=0, lexerr=0, avoid_insert_err_values=0)
+    stats = dict(inputs=0, with_errors=0, values_compared=0, err_values=0, nondet_skipped=0, lexerr=0, avoid_insert_err_values=0,
+                 unused_token_rule_hits=0, process_file_inputs=0, process_file_recN_error_inputs=0, process_file_recC_repaired_inputs=0)
     for pr in accepted:
         name = pr['name']
         if name in broken:
@@ -775,7 +797,12 @@ def pipeline_part(ctx, exe, mexe, d):
                 "files": "written by checks/C13.py (seed %d, tier %s) as %s.{y,l}" % (ctx.seed, ctx.tier, name)}
         if out is None or "PANIC" in out:
             ndiff += 1
-            ctx.violation(dict(base, what="the compiled generated parser/lexer panics or produced no output",
+            if pr.get('big_programs'):
+                base = dict(base, grammar=base['grammar'][:3000] + " …[programs section of %d bytes: see gen/c13gen.render_y]" % len(base['grammar']),
+                            programs_section_bytes=pr['big_programs'])
+            ctx.violation(dict(base, what="the compiled generated parser/lexer panics (at start-up or on one of the inputs: the run-time "
+                                          "pipeline answers all of them) or produced no output",
+                               inputs=pr['inputs'][:4], runtime_results=[x.split(" | RED")[0][:200] for x in rtres[name][:4]],
                                panic=unhx(out["PANIC"]) if out and "PANIC" in out else "no output"))
             continue
         nprog_compared += 1
@@ -807,8 +834,16 @@ def pipeline_part(ctx, exe, mexe, d):
             rlex, rval, rn, res_, red = split_result(r)
             if "!" in rlex:
                 stats['lexerr'] += 1
+                if pr.get('unused_tokens'):
+                    stats['unused_token_rule_hits'] += 1     # (or another lexing error of such a program)
             if rn:
                 stats['with_errors'] += 1
+            if pr['settings'].get('entry') == "pf":
+                stats['process_file_inputs'] += 1
+                if rn and pr['settings']['rec'] == "N":
+                    stats['process_file_recN_error_inputs'] += 1
+                if pr['settings']['rec'] != "N" and any(e.startswith("P") and "{}" not in e for e in res_):
+                    stats['process_file_recC_repaired_inputs'] += 1
             if valcmp:
                 stats['values_compared'] += 1
                 if "Err(" in unhx(cval.split()[1]) if cval != "VAL -" else False:
@@ -858,6 +893,12 @@ def pipeline_part(ctx, exe, mexe, d):
     ctx.oblige(ndiff == 0, "pipeline correspondence")
     ctx.oblige(stats['avoid_insert_err_values'] > 0 or not any(p.get('pinned') and p['name'] not in broken for p in accepted),
                "coverage: a compared value in which an %avoid_insert token was inserted (Err)")
+    live = [p for p in accepted if p['name'] not in broken and p['name'] in outputs and "PANIC" not in outputs[p['name']]]
+    ctx.oblige(stats['unused_token_rule_hits'] > 0 or not any(p.get('unused_tokens') for p in live),
+               "coverage: an input lexed into a rule whose (named) token the grammar lacks")
+    ctx.oblige(stats['process_file_recN_error_inputs'] > 0
+               or not any(p['settings'].get('entry') == "pf" and p['settings']['rec'] == "N" for p in live),
+               "coverage: an erroneous input for a parser generated through process_file with recoverer None")
     for k, v in stats.items():
         ctx.count("pipeline_" + k, v)
     ctx.count("model_value_evaluations", nmodel)
@@ -866,8 +907,11 @@ def pipeline_part(ctx, exe, mexe, d):
     for pr in accepted:
         ctx.count("family_" + pr['family'].split(":")[0])
         ctx.count("yk_" + pr['yk'])
-        for k in ("rec", "ser", "ed", "vis"):
+        for k in ("rec", "ser", "ed", "vis", "entry", "amp"):
             ctx.count("%s_%s" % (k, pr['settings'][k]))
+        ctx.count("entry_%s_rec_%s" % (pr['settings']['entry'], pr['settings']['rec']))
+        if pr.get('big_programs'):
+            ctx.count("programs_section_over_80KB")
         for k in c13gen.effective_flags(pr):
             ctx.count("flag_" + k)
     return nprog_compared, stats, skipped
@@ -900,8 +944,12 @@ def run(ctx):
         "section and builder API) and every pair of boolean flags with differing values, the quoted options of lexerdef() read back "
         "and evaluated by the model; module text (every generated program: facts P1-P4, L1 of theories/C13/PipelineModel.v read off "
         "the generated parser and lexer modules, embedded constants compared with the run-time serialisation); pipeline (the first programs: one per behaviour-changing flag at its non-default value with "
-        "rules and inputs sensitive to it): %d generated programs (grammar/lexer family x yacc kind x recoverer x "
-        "serialisation format x edition x visibility x module names x lexer flags via %%grmtools section or builder API) "
+        "rules and inputs sensitive to it; programs generated through the deprecated process_file entry points with the recoverer "
+        "None / CPCT+ set through the builder and erroneous inputs; lexers that NAME tokens the grammar lacks — reserved words before "
+        "the identifier rule, FLOAT next to INT — with inputs that reach those rules; one grammar with a programs section of 90 KB): "
+        "%d generated programs (grammar/lexer family x yacc kind x recoverer x "
+        "serialisation format x edition x visibility x module names x entry point (build | process_file) x "
+        "allow_missing_tokens_in_parser x lexer flags via %%grmtools section or builder API) "
         "compiled in one throw-away crate, each run on sentences, near-sentences and flag-sensitive inputs; a case = "
         "(program, settings, input), distinct by its full text, non-trivial = input of at least 3 words; values are "
         "compared when every error has at most one repair sequence (%d inputs skipped the value/later-error comparison "
